@@ -15,6 +15,7 @@ import (
 	"reflect"
 	"strconv"
 	"strings"
+	"sync"
 
 	restful "github.com/emicklei/go-restful/v3"
 )
@@ -245,6 +246,92 @@ func normalise(v entVal) entVal {
 	return v
 }
 
+// gzip bodies from several goroutines at once on one provider: every body must decode to its own value
+func runEntityConc(tw *traceWriter, r *rand.Rand, provider string, g, per int) {
+	l := newReqLog()
+	prov := &ledgerProvider{inner: makeProvider(provider), ids: map[interface{}]int{}, cur: l}
+	restful.SetCompressorProvider(prov)
+	defer restful.SetCompressorProvider(restful.NewSyncPoolCompessors())
+	restful.DefaultRequestContentType("")
+	kind := entKind{Codec: "json", CT: "exact", CE: "gzip", Dmg: "none"}
+	tw.emit(map[string]interface{}{"e": "ecase", "provider": provider, "kinds": []entKind{kind}, "conc": g})
+	c := restful.NewContainer()
+	ws := new(restful.WebService).Path("/e")
+	ws.Route(ws.POST("/echo").To(func(req *restful.Request, resp *restful.Response) {
+		var v entVal
+		if err := req.ReadEntity(&v); err != nil {
+			resp.WriteErrorString(400, "ERR "+err.Error())
+			return
+		}
+		resp.WriteAsJson(v)
+	}))
+	c.Add(ws)
+	type item struct {
+		v    entVal
+		body []byte
+	}
+	items := make([][]item, g)
+	for gi := range items {
+		for j := 0; j < per; j++ {
+			v := randomValue(r, false)
+			v.S = strings.Repeat(fmt.Sprintf("g%d-%d-", gi, j), 20) // compressible, distinguishable
+			items[gi] = append(items[gi], item{v, encodeBody(writeWithEntityWriter(v, "json", false), kind)})
+		}
+	}
+	results := make([][]string, g)
+	var wg sync.WaitGroup
+	start := make(chan struct{})
+	for gi := 0; gi < g; gi++ {
+		wg.Add(1)
+		go func(gi int) {
+			defer wg.Done()
+			<-start
+			for _, it := range items[gi] {
+				hr, _ := buildRequest("POST", "/e/echo", [][2]string{{"Content-Type", restful.MIME_JSON}, {"Content-Encoding", "gzip"}}, it.body, false)
+				rec := httptest.NewRecorder()
+				pv := safely(func() { c.Dispatch(rec, hr) })
+				got := "ok"
+				var back entVal
+				if pv != "" {
+					got = "panic"
+				} else if rec.Code != 200 || json.Unmarshal(rec.Body.Bytes(), &back) != nil {
+					got = "error"
+				} else {
+					back.XMLName = it.v.XMLName
+					if !reflect.DeepEqual(normalise(back), normalise(it.v)) {
+						got = "other"
+					}
+				}
+				results[gi] = append(results[gi], got)
+			}
+		}(gi)
+	}
+	close(start)
+	wg.Wait()
+	i := 0
+	for gi := range results {
+		for _, got := range results[gi] {
+			i++
+			g2, eq := got, true
+			if got == "other" {
+				g2, eq = "ok", false // decoded, but to another request's value
+			}
+			tw.emit(map[string]interface{}{"e": "eres", "i": i, "kind": kind, "got": g2, "equal": eq, "numExact": true,
+				"afterDamage": false, "pretty": false, "len": 0})
+		}
+	}
+	acq, rel := 0, 0
+	for _, ev := range l.evs {
+		if ev.K == "acq" {
+			acq++
+		}
+		if ev.K == "rel" {
+			rel++
+		}
+	}
+	tw.emit(map[string]interface{}{"e": "eend", "acq": acq, "rel": rel})
+}
+
 func runEntity(planPath, outPath string, seed int64) {
 	var p entPlan
 	readJSONFile(planPath, &p)
@@ -282,6 +369,11 @@ func runEntity(planPath, outPath string, seed int64) {
 			kinds = append(kinds, k)
 		}
 		runEntitySeq(tw, r, kinds, pick(r, []string{"pool", "cache0", "cache1", "cache2"}))
+	}
+	if p.Random > 0 {
+		for _, prov := range []string{"pool", "cache1", "cache2"} {
+			runEntityConc(tw, r, prov, 8, 12)
+		}
 	}
 	_ = fmt.Sprint
 }
